@@ -352,4 +352,56 @@ def execute(case, stats):
     stats.note(case, special or indiv or off, classes=["settings_%d" % (len(present) // 10 * 10), "special_arg" if special else "plain_args", "gate_individual" if indiv else "gate_other", "execute_offset" if off else "no_offset"])
 
 
-SUBS = [Sub("config_to_profile", execute, strategy=cfg_strategy, examples={"quick": 320, "thorough": 6400})]
+def samples_enumerate(tier, shard, nshards):
+    from .. import samples
+    from ..runner import shard_iter
+
+    return shard_iter(({"name": n} for n in sorted(samples.NAMES)), shard, nshards)
+
+
+def samples_execute(case, stats):
+    """Profiles generated from the seven real sample beacons: valid text, transform steps equal the frozen decoded values."""
+    from dissect.cobaltstrike import c2profile
+    from dissect.cobaltstrike.beacon import BeaconConfig
+
+    from .. import samples
+    from ..ref import anchor_samples as A
+
+    name = case["name"]
+    meta = A.fixture()[name]
+    cfg = lib(BeaconConfig.from_bytes, samples.sample(name), xor_keys=samples.SAMPLE_KEYS, what=f"from_bytes({name})")
+    prof = lib(c2profile.C2Profile.from_beacon_config, cfg, what="from_beacon_config")
+    text = lib(prof.as_text, what="as_text")
+    back = lib(c2profile.C2Profile.from_text, text, allow=(Exception,), what="from_text(generated)")
+    if isinstance(back, Raised):
+        raise Violation("profile:generated_text_invalid", f"{name}: generated profile does not parse: {str(back.exc)[:300]}")
+    d = lib(back.as_dict)
+    dec = meta["decoded"]
+    if "12" in dec:
+        want = split_blocks_expected([tuple(x) for x in dec["12"]])
+        eq(d.get("http-get.client.metadata", []), want.get("metadata", []), "profile:get_transform", f"{name}: http-get.client.metadata")
+    if "13" in dec:
+        want = split_blocks_expected([tuple(x) for x in dec["13"]])
+        for kind in ("id", "output"):
+            eq(d.get(f"http-post.client.{kind}", []), want.get(kind, []), "profile:post_transform", f"{name}: http-post.client.{kind}")
+    if "11" in dec and dec["11"]:
+        rs = [tuple(x) for x in dec["11"]]
+        want = [n if a is True else (n, a) for n, a in reversed([x for x in rs if x[0] != "print"])] + ["print"]
+        got = [(g[0], len(g[1])) if isinstance(g, tuple) else g for g in d.get("http-get.server.output", [])]
+        eq(got, want, "profile:server_output_order", f"{name}: http-get.server.output (kinds and lengths, profile order)")
+    if "51" in dec:
+        want = []
+        for e in dec["51"]:
+            if '"' in e:
+                nm, arg = e.split(" ", 1)
+                want.append((nm, arg.strip('"').encode()))
+            else:
+                want.append(e.replace("_s", "-s"))
+        eq(d.get("process-inject.execute", []), want, "profile:execute", f"{name}: process-inject.execute")
+    stats.note(case, True, classes=["real_sample"])
+
+
+SUBS = [
+    Sub("real_samples", samples_execute, enumerate=samples_enumerate, exhaustive=True),
+    Sub("config_to_profile", execute, strategy=cfg_strategy, examples={"quick": 320, "thorough": 6400}),
+]
